@@ -596,6 +596,13 @@ def check_c06(exe, tier, seed, verdict):
         pdmap = {(l, n): x["pd"][l - 1][n - 1] for l in range(1, len(x["drop"]) + 1) for n in x["drop"][l - 1]} if ent in ("config_dirs", "set_conf_dirs") else None
         s, pre, paths, rejp = fault_script(t, shape, R, rej, pd=pdmap)
         sc = s + ["cbreset"] + pre
+        if i % 3 == 0:
+            # the caller's callback itself performs a LAYERED read of an unrelated configuration (a policy, say) with its own main
+            # file and drop-ins before it answers: the outer read must go on with the file it asked about
+            N = R + "/nested"
+            sc += ["file %s %s" % (hx(N + "/etc/pol.conf"), hx("K=nested\nN=1\n")), "file %s %s" % (hx(N + "/usr/pol.conf.d/aa.conf"), hx("A=1\n")),
+                   "file %s %s" % (hx(N + "/etc/pol.conf.d/zz.conf"), hx("K=evil\nEVIL=1\n[S]\nK=evil\n")),
+                   "cbreaddirs %s %s %s %s" % (hx(N + "/usr"), hx(N + "/etc"), hx("pol"), hx("conf"))]
         # rejection by exact path (one) or by k-th call
         K = [tuple(f) for f in x["log"]]
         mask = 0
